@@ -2,6 +2,7 @@ package main
 
 import (
 	"fmt"
+	"os"
 	"strings"
 )
 
@@ -138,7 +139,6 @@ func crashScenarios(thorough bool) []crashScenario {
 			crashScenario{name: "mint-ppk1000", mints: []uint{1000}, prep: func(*histWorld, *bWallet) bool { return true },
 				op: func(hw *histWorld, w *bWallet) error { return crashMint(hw, w, hw.b.mints[w.home], 255) }},
 			crashScenario{name: "send-swap-fees", mints: []uint{100}, prep: drained, op: send(2, true), want: "client.PostSwap"},
-			crashScenario{name: "send-swap-ppk1000", mints: []uint{1000}, prep: drained, op: send(1, true), want: "client.PostSwap", params: []uint64{1, 2, 3}},
 			crashScenario{name: "melt-pending", mints: []uint{100}, prep: fund(100), op: melt(20, "pending")},
 			crashScenario{name: "melt-failed", mints: []uint{0}, prep: fund(100), op: melt(20, "failed")},
 			crashScenario{name: "melt-swap", mints: []uint{100}, prep: drained, op: melt(1, "paid"), want: "client.PostSwap", params: []uint64{1, 2}},
@@ -149,7 +149,11 @@ func crashScenarios(thorough bool) []crashScenario {
 }
 
 func runWalletCrash(c *Ctx) {
+	only := os.Getenv("WB_ONLY") // debugging aid: run a single scenario
 	for si, sc := range crashScenarios(c.Thorough) {
+		if only != "" && sc.name != only {
+			continue
+		}
 		runCrashScenario(c, si, sc)
 	}
 }
